@@ -11,7 +11,7 @@ package main
 // and the argument values; the Lean model computes from these alone what Run must
 // return and what the function must have received.
 //
-//	payload: <name> <D|I|T> <params>;<V|N>;<results> <body> <arg>…
+//	payload: <name> <D|I|T> <params>;<V|N>;<results> <body> <arg>…   (I: arguments written as ECAL literals where one exists)
 //	result : V <value> recv=[…] | E f recv=… | E b recv=… | X        (mode D: Run called directly)
 //	         V <value> recv=…   | E recv=…   | C recv=…               (I: through the interpreter, T: inside try)
 //
@@ -148,6 +148,7 @@ func c19Synthetic() []c19Fn {
 type c19Val struct {
 	v   interface{}
 	src string // name of the variable holding it in the ECAL scope
+	lit string // ECAL literal denoting it ("" = none): used in mode I, the variable in mode T
 }
 
 var c19Universe []c19Val
@@ -171,8 +172,15 @@ func c19BuildUniverse() {
 		// beyond the stated universe: negative out of range, fraction below zero, 2^63, -Inf
 		-129.0, -0.5, 9223372036854775808.0, math.Inf(-1)}
 	c19Universe = nil
+	lits := []string{"null", "true", "false", "0", "-1", "1", "1.5", "127", "128", "255", "256",
+		"2147483648", "9007199254740992", "", "", `""`, `"a"`, `"1"`,
+		"[]", "[1]", "{}", `{"a":1}`, "",
+		"-129", "-0.5", "", ""}
+	if len(lits) != len(vals) {
+		panic("C19 universe: literals and values out of step")
+	}
 	for i, v := range vals {
-		c19Universe = append(c19Universe, c19Val{v, fmt.Sprintf("u%d", i)})
+		c19Universe = append(c19Universe, c19Val{v, fmt.Sprintf("u%d", i), lits[i]})
 	}
 	for i, u := range c19Universe {
 		c19CanonIdx[c19Canon(u.v, 0)] = i
@@ -532,6 +540,9 @@ func c19Run(payload string) (res string) {
 	names := make([]string, len(idx))
 	for i, u := range idx {
 		names[i] = c19Universe[u].src
+		if mode == "I" && c19Universe[u].lit != "" {
+			names[i] = c19Universe[u].lit
+		}
 	}
 	call := t.name + "(" + strings.Join(names, ", ") + ")"
 	src := call
